@@ -614,7 +614,6 @@ func (c02) Run(e *simkit.Env, cc any) {
 	}
 }
 
-
 // runC02Meta: the same conservation law with a meta-process as the receiver: every send or
 // request to its alias that reported success is handled exactly once, nothing else is handled,
 // and nothing stays queued at quiescence.
